@@ -81,6 +81,9 @@ GROUPS.append({"name": "vm_callcc", "label": "bounded", "harness": "harness/C06/
                "bound": "live stack of 13 or 14 slots; contents symbolic",
                "assumptions": ["alloc_gc on the VM side in sexp_make_vector / sexp_make_procedure (roots: stack below the published top, self/tmp1/tmp2 on ctx->saves, closure through tracked vectors and pairs)"],
                "instances": [{"name": "nt%d" % nt, "defs": {"NT": nt, "CAPTURE_ONLY": 1}} for nt in (0, 1)]})
+GROUPS.append({"name": "preserve_macros", "label": "proved", "harness": "harness/C02/preserve_macros.c", "entry": "h_preserve_macros", "flags": ["-I@BUILD@/shim_small"], "unwind": 12,
+               "min_obligations": 20, "timeout": 120, "mem_gb": 2, "functions": ["include/chibi/sexp.h:sexp_gc_preserve1..7", "include/chibi/sexp.h:sexp_gc_release1..7"],
+               "assumptions": [], "instances": [{"name": "n1_7"}]})
 GROUPS += _bal_groups()
 META = {
  "trusted_base": ["CBMC 6.11.0 front end and SAT back end", "the adversarial collector of harness/bn.h and harness/vm/vm.h (harness code): reclaims and havocs every tracked object not reachable from the registered roots at EVERY allocation",
